@@ -68,7 +68,20 @@ pub fn check(cfgc: &CtxCfg, prelude_seed: u64, prelude_len: usize, req: &[u8], r
         // a request that asks about THIS endpoint's identity: "uuid:<cmd>" requests are completed here
         // with the UUID the prelude installed
         let req_owned: Vec<u8>;
-        let req: &[u8] = if req.len() == 13 + 17 && req[10] == 0x10 && req[11..27] == [0xEE; 16] {
+        let req: &[u8] = if req.len() == 12 + 17 && req[10] == 0x10 && req[11..27] == [0xEE; 16] {
+            // make sure there is an identity to ask about: a UUID (if the prelude installed none) and,
+            // most of the time, an assigned EID
+            if m.uuid == [0u8; 16] {
+                let mut u = [0u8; 16];
+                prng.fill(&mut u);
+                let op = Op::SetUuid(u);
+                m.apply_non_packet(&op);
+                exec(ctx, &op, 80, 7);
+            }
+            if prng.chance(3, 4) {
+                let op = instantiate(Letter::SetEid, &mut prng, &m);
+                exec(ctx, &op, 80, 7);
+            }
             let mut r = req.to_vec();
             r[11..27].copy_from_slice(&m.uuid);
             crate::refmodel::forge::fix_pec(&mut r);
